@@ -152,7 +152,23 @@ fn crate_facts<'tcx>(tcx: TyCtxt<'tcx>) -> J {
                         ("fields", J::Arr(fields)),
                     ]));
                 }
+                let gens = tcx.generics_of(did);
+                let mut gnames = Vec::new();
+                for p in &gens.own_params {
+                    let kind = match p.kind {
+                        ty::GenericParamDefKind::Lifetime => "lifetime",
+                        ty::GenericParamDefKind::Type { .. } => "type",
+                        ty::GenericParamDefKind::Const { .. } => "const",
+                    };
+                    gnames.push(J::obj(vec![
+                        ("name", J::s(p.name.to_string())),
+                        ("kind", J::s(kind)),
+                    ]));
+                }
+                let has_drop = adt.destructor(tcx).is_some();
                 adts.push(J::obj(vec![
+                    ("generics", J::Arr(gnames)),
+                    ("has_drop", J::Bool(has_drop)),
                     ("path", J::s(crate::dps(tcx, did))),
                     ("kind", J::s(format!("{:?}", tcx.def_kind(did)))),
                     ("reachable", J::Bool(ev.is_reachable(ldid))),
